@@ -50,6 +50,7 @@ type Frame struct {
 type exitK func(st *State, res []*Val, pan *Val)
 
 type Exec struct {
+	orphanGiven map[string]int
 	ld       *Loaded
 	prog     *ssa.Program
 	cs       *Contracts
